@@ -119,6 +119,8 @@ C01 = dict(
     },
 )
 C01["functions"] += ["hypercore::oplog::Oplog::{clear,append_changeset,update_header_with_changeset,append_entries}"]
+C01["mir"] = True
+C01["functions"] = C01["functions"] + ["MIR of hypercore::core::get (bitfield gate before any tree/data access, on every path)"]
 PROPS["C01"] = C01
 
 # --------------------------------------------------------------------------------------------- C08
@@ -347,6 +349,8 @@ C03 = dict(
         "c03_n4_far_block": _T("writer 4 blocks; replica: block 3 + upgrade 0->4, then block 0", "block contents symbolic", "requests concrete", timeout=1500, tier="thorough"),
     },
 )
+C03["mir"] = True
+C03["functions"] = C03["functions"] + ["MIR of hypercore::core::create_proof (a block whose value cannot be read yields Ok(None), on every path)"]
 PROPS["C03"] = C03
 
 # --------------------------------------------------------------------------------------------- C04
